@@ -279,6 +279,59 @@ func checkC20(tier string) *dr.Result {
 	wg.Wait()
 	c.sample(map[string]any{"fn": "Diff", "have": "a\nb\nc", "want": "a\nc\nc", "got": ztest.Diff("a\nb\nc", "a\nc\nc")})
 
+	// ---- Diff part 1b: lines are opaque text - contents that mean something to printf, to a diff reader or to a
+	// tokenizer (format verbs, leading +/-/space, a hunk header, tabs, inner spaces), all pairs of sequences up to
+	// length 3 (thorough: 4) over these seven lines
+	special := []string{"%d", "100%", "%%s %v", "+a", "-a", " a b", "@@ -1 +1 @@", "\ta"}
+	Ls := 3
+	if tier == "thorough" {
+		Ls = 4
+	}
+	var sseqs [][]string
+	var sgen func(cur []string, n int)
+	sgen = func(cur []string, n int) {
+		sseqs = append(sseqs, append([]string{}, cur...))
+		if n == 0 {
+			return
+		}
+		for _, x := range special {
+			sgen(append(cur, x), n-1)
+		}
+	}
+	sgen(nil, Ls)
+	stexts := make([]string, len(sseqs))
+	for i, q := range sseqs {
+		stexts[i] = strings.Join(q, "\n")
+	}
+	for sh := 0; sh < nsh; sh++ {
+		wg.Add(1)
+		go func(sh int) {
+			defer wg.Done()
+			var ev int64
+			for i := sh; i < len(stexts); i += nsh {
+				if time.Now().After(deadline) {
+					mu.Lock()
+					c.r.Exhaustive = false
+					mu.Unlock()
+					break
+				}
+				for j := range stexts {
+					a, b := stexts[i], stexts[j]
+					out := ztest.Diff(a, b)
+					ev++
+					if msg := checkDiff(a, b, out); msg != "" {
+						report("diff", "Diff output wrong: "+firstWords(msg), fmt.Sprintf("Diff(%q, %q) = %q: %s", a, b, out, msg), map[string]any{"have": a, "want": b})
+					}
+				}
+			}
+			mu.Lock()
+			evals += ev
+			states += ev
+			mu.Unlock()
+		}(sh)
+	}
+	wg.Wait()
+
 	// ---- Diff part 2: long two-letter sequences against their <=2-edit neighbours (hunk splitting, context trimming) ----
 	N := 10
 	maxLen := 12
